@@ -401,12 +401,13 @@ class Engine:
             if modname is None:
                 return None
             try:
-                if modname.startswith("."):
-                    return None
                 val = getattr(importlib.import_module(modname), orig)
             except Exception:  # noqa
                 return None
-            return self.py_constant(val)
+            c = self.py_constant(val)
+            if c is None and callable(val) and self.reg.get(getattr(val, "__name__", "")) is not None:
+                return VFunc("repo", val.__name__)
+            return c
         if name in mi.globals_assign:
             node = mi.globals_assign[name]
             if isinstance(node, (ast.List, ast.Tuple)):
